@@ -5,7 +5,7 @@
 (* feeding the classifier.  Init chooses the input from every byte string  *)
 (* up to MaxLen over Alphabet and every start context.                     *)
 (***************************************************************************)
-EXTENDS XssOps, TLC, Json
+EXTENDS XssOps, TLC, Json, SequencesExt
 
 CONSTANTS Alphabet,    \* bytes the body is built from
           MaxLen,      \* maximal body length
@@ -21,9 +21,10 @@ VARIABLES s,        \* the input
           attr,     \* classifier: type of the pending attribute
           fired,    \* classifier verdict so far (isXSS returns true at the first firing token;
                     \* the model keeps tokenizing so that the whole token stream is specified)
-          phase     \* "run" | "end" (next() returned false)
+          phase,    \* "run" | "end" (next() returned false)
+          path      \* history: state functions that ran (coverage)
 
-vars == <<s, ctx, c, depth, toks, attr, fired, phase>>
+vars == <<s, ctx, c, depth, toks, attr, fired, phase, path>>
 
 AllStrings == UNION {[1..k -> Alphabet] : k \in 0..MaxLen}
 
@@ -36,10 +37,12 @@ Init ==
   /\ attr = AttrNone
   /\ fired = FALSE
   /\ phase = "run"
+  /\ path = {}
 
 \* apply the micro-step r of the state function that just ran
 Apply(r) ==
   /\ UNCHANGED <<s, ctx>>
+  /\ path' = path \cup {c.st}
   /\ c' = r.c
   /\ CASE r.k = "call" -> /\ depth' = depth + 1
                           /\ UNCHANGED <<toks, attr, fired, phase>>
@@ -92,7 +95,7 @@ Spec == Init /\ [][Next]_vars
 \* invariants (C02, C17)
 
 n == Len(s)
-Last == toks[Len(toks)]
+LastTok == toks[Len(toks)]
 
 TypeOK ==
   /\ c.st \in StateNames /\ c.isClose \in BOOLEAN /\ attr \in 0..4
@@ -110,7 +113,7 @@ CountBound == Len(toks) <= n + 1
 DepthBounded == depth <= 5
 
 \* every emitted token leaves the scan offset at or after the token's end, or the tokenizer at EOF
-Progress == toks # <<>> => (c.pos >= Last.off + Last.len \/ c.st = "EOF")
+Progress == toks # <<>> => (c.pos >= LastTok.off + LastTok.len \/ c.st = "EOF")
 
 \* every step consumes input, ends the run, or is one of boundedly many direct calls
 StepVariant == [][ \/ c'.pos > c.pos \/ phase' # "run" \/ c'.st = "EOF" \/ depth' > depth
@@ -120,7 +123,7 @@ StepVariant == [][ \/ c'.pos > c.pos \/ phase' # "run" \/ c'.st = "EOF" \/ depth
 OpenerAt(off, lit) == off >= Len(lit) /\ MatchAt(s, off - Len(lit), lit)
 EndsAtFirstTerminator ==
   toks # <<>> =>
-    LET t == Last IN
+    LET t == LastTok IN
     /\ (t.type = TagComment /\ OpenerAt(t.off, <<60, 37>>)) =>            \* <% .. %>
           IF PctEnd(s, t.off) = -1 THEN t.len = n - t.off ELSE t.len = PctEnd(s, t.off) - t.off
     /\ (t.type = DataText /\ OpenerAt(t.off, <<60, 33>> \o CDataLit)) =>  \* <![CDATA[ .. ]]>
@@ -138,6 +141,7 @@ Terminal == phase = "end"
 Export ==
   (DoExport /\ Terminal) =>
      PrintT(ToJson([in |-> s, ctx |-> ctx, xss |-> fired,
+                    path |-> SetToSeq(path),
                     toks |-> [i \in DOMAIN toks |-> <<toks[i].type, toks[i].off, toks[i].len>>]]))
 
 \* history variables are output only
